@@ -84,7 +84,7 @@ func (srv *Srv) auth(req *SrvReq) {
 }
 
 func (srv *Srv) authPost(req *SrvReq) {
-	if req.Rc != nil && req.Rc.Type == Rauth {
+	if req.Rc != nil && req.Rc.Type == Rauth && req.Afid != nil {
 		req.Afid.IncRef()
 	}
 }
@@ -136,7 +136,7 @@ func (srv *Srv) attach(req *SrvReq) {
 }
 
 func (srv *Srv) attachPost(req *SrvReq) {
-	if req.Rc != nil && req.Rc.Type == Rattach {
+	if req.Rc != nil && req.Rc.Type == Rattach && req.Fid != nil {
 		req.Fid.Type = req.Rc.Qid.Type
 		req.Fid.IncRef()
 	}
@@ -217,7 +217,7 @@ func (srv *Srv) walk(req *SrvReq) {
 
 func (srv *Srv) walkPost(req *SrvReq) {
 	rc := req.Rc
-	if rc == nil || rc.Type != Rwalk || req.Newfid == nil {
+	if rc == nil || rc.Type != Rwalk || req.Newfid == nil || req.Fid == nil {
 		return
 	}
 
@@ -345,7 +345,7 @@ func (srv *Srv) read(req *SrvReq) {
 }
 
 func (srv *Srv) readPost(req *SrvReq) {
-	if req.Rc != nil && req.Rc.Type == Rread && (req.Fid.Type&QTDIR) != 0 {
+	if req.Rc != nil && req.Rc.Type == Rread && req.Fid != nil && (req.Fid.Type&QTDIR) != 0 {
 		req.Fid.Diroffset += uint64(req.Rc.Count)
 	}
 }
